@@ -29,6 +29,8 @@ def tree_hash(paths, exts):
             h.update(f.encode()); h.update(open(f, 'rb').read())
     return h.hexdigest()[:16]
 
+last_model_io = ([], [])
+
 class Stage(Exception):
     """a stage of the tie failed (translator, Coq build, extraction, C++ build)"""
     def __init__(self, stage, detail):
@@ -159,6 +161,8 @@ def run_pair(cases, cxx_exe, ml_exe, env=None):
         parsed.append(po)
         mlines.append(dump([i, t, cmd, args, libm]))
     mout = run_driver(ml_exe, mlines, env=e, chunk=100)
+    global last_model_io
+    last_model_io = (mlines, mout)
     out = []
     for c, po, m in zip(cases, parsed, mout):
         pm = parse(m)
@@ -166,3 +170,56 @@ def run_pair(cases, cxx_exe, ml_exe, env=None):
         mo = pm[1] if len(pm) > 1 and pm[0] == c[0] else pm
         out.append({'case': c, 'cxx': cx, 'model': mo})
     return out
+
+
+# ---- cross-check of the extraction: the same cases evaluated inside Coq by vm_compute -----------------------
+def coq_sx(x):
+    """S-expression (as parsed by sxp) -> Coq term of type sx; None if it contains a non-empty byte string with
+    characters that are awkward in a Coq string literal"""
+    if isinstance(x, list):
+        parts = [coq_sx(e) for e in x]
+        if any(p is None for p in parts): return None
+        return 'SL [' + '; '.join(parts) + ']'
+    if isinstance(x, bool): return 'SN %d%%N' % int(x)
+    if isinstance(x, int): return 'SN %d%%N' % x
+    if isinstance(x, bytes):
+        if any(c < 32 or c > 126 or c == 34 for c in x): return None
+        return 'SS "%s"' % x.decode()
+    if x.startswith('%'):
+        t = x[1:]
+        if t == 'nan': return 'SF ONan'
+        if t in ('z+', 'z-'): return 'SF (OZero %s)' % ('true' if t[1] == '-' else 'false')
+        if t in ('i+', 'i-'): return 'SF (OInf %s)' % ('true' if t[1] == '-' else 'false')
+        m, e = t[1:].split('p')
+        return 'SF (OFin %s %d%%positive (%d)%%Z)' % ('true' if t[0] == '-' else 'false', int(m, 16), int(e))
+    return 'SY "%s"' % x
+
+def vm_crosscheck(lines_in, lines_out, limit=6, max_len=2500):
+    """lines_in: case lines as fed to the model driver (with the libm table); lines_out: what the extracted model printed.
+    Evaluates run_line on a few small cases by vm_compute and compares.  Returns (checked, mismatches, detail)."""
+    picked = []
+    for i, o in zip(lines_in, lines_out):
+        if len(i) > max_len or len(o) > max_len: continue
+        ci, co = coq_sx(parse(i)), coq_sx(parse(o))
+        if ci is None or co is None: continue
+        picked.append((ci, co))
+        if len(picked) >= limit: break
+    if not picked:
+        return 0, 0, ''
+    d = os.path.join(BUILD, 'tmp'); os.makedirs(d, exist_ok=True)
+    src = os.path.join(d, 'VmSample_%d.v' % os.getpid())
+    with open(src, 'w') as f:
+        f.write('From Coq Require Import ZArith NArith List String Bool.\nFrom HepMC Require Import Num NumB Sx Top.\nImport ListNotations.\nLocal Open Scope string_scope.\n')
+        f.write('Definition cases : list (sx * sx) := [\n  ' + ';\n  '.join('(%s, %s)' % p for p in picked) + '].\n')
+        f.write('Eval vm_compute in map (fun p => sx_eqb (run_line (fst p)) (snd p)) cases.\n')
+    rc, out = sh('timeout 600 coqc -Q %s HepMC %s' % (COQ, src), cwd=d, timeout=700)
+    for ext in ('.v', '.vo', '.glob', '.vok', '.vos'):
+        try: os.remove(src[:-2] + ext)
+        except OSError: pass
+    try: os.remove(os.path.join(d, '.' + os.path.basename(src)[:-2] + '.aux'))
+    except OSError: pass
+    if rc != 0:
+        return len(picked), len(picked), 'coqc failed: ' + out[-400:]
+    flat = out.replace('\n', ' ')
+    n_true = flat.count('true'); n_false = flat.count('false')
+    return len(picked), n_false + max(0, len(picked) - n_true - n_false), '' if n_false == 0 else out[-300:]
